@@ -239,3 +239,28 @@ Theorem C07_code_tie_model_post_file_interprets_the_events :
            end.
 Proof. exact plan_post_file_is_the_interpretation. Qed.
 Print Assumptions C07_code_tie_model_post_file_interprets_the_events.
+
+
+(* keeper.RemoveFile, generated from the current source (the record field it updates in place is a translated
+   variable): the footprint FileSize*MaxProofs of a file with Expires <= 0 is taken off the usage of the plan stored
+   under the file's owner, never below zero, before both index entries go; the model's remove_file is the
+   interpretation of those events *)
+Theorem C07_code_tie_RemoveFile :
+  forall s k,
+    let f := get_file s k in
+    let p := get_plan s (k_owner k) in
+    remove_file s k
+    = match gen_RemoveFile (GoTiePost.is_some f) (match f with Some x => f_expires x | None => 0 end)
+              (match f with Some x => f_size x | None => 0 end) (match f with Some x => f_maxp x | None => 0 end)
+              (GoTiePost.is_some p) (match p with Some q => p_used q | None => 0 end) (k_start k) with
+      | GVal [] => s
+      | GVal [_; Ev _ [u]; _; _] =>
+          match p with
+          | Some q => {| plans := plans (set_plan s (k_owner k) (with_used q u)); files := adel fkey_eqb (files s) k |}
+          | None => s
+          end
+      | GVal _ => {| plans := plans s; files := adel fkey_eqb (files s) k |}
+      | GPanic => s
+      end.
+Proof. exact plan_remove_file_is_the_interpretation. Qed.
+Print Assumptions C07_code_tie_RemoveFile.
